@@ -171,12 +171,30 @@ func checkC10(c c10Case) *evid.Fail {
 		}
 		return evid.F(sig, "well-formed template %q was rejected: %v", c.Template, err)
 	}
-	for _, m := range c.Maps {
+	// the same template set on an object whose previous templates were rejected (syntax and lexical failures)
+	used := mustache.NewMustacheTemplate()
+	if g := guard(func() {
+		used.SetTemplate("x{{/a}}")
+		used.SetTemplate("{{#a}}x{{/b}}y")
+		used.SetTemplate("{{a}")
+		err = used.SetTemplate(c.Template)
+	}); g != nil {
+		g.Msg = fmt.Sprintf("SetTemplate(%q) after rejected templates: %s", c.Template, g.Msg)
+		return g
+	}
+	if err != nil {
+		return evid.F("well-formed-rejected:after-rejected-template", "well-formed template %q was rejected by an object whose previous templates had been rejected: %v", c.Template, err)
+	}
+	for mi, m := range c.Maps {
 		var want strings.Builder
 		mRender(c.Tree, m, &want)
 		var got string
 		var rerr error
-		if g := guard(func() { got, rerr = t.EvaluateWithVariables(m) }); g != nil {
+		subject := t
+		if mi == len(c.Maps)-1 {
+			subject = used
+		}
+		if g := guard(func() { got, rerr = subject.EvaluateWithVariables(m) }); g != nil {
 			g.Msg = fmt.Sprintf("render %q with %s: %s", c.Template, sortedMap(m), g.Msg)
 			return g
 		}
